@@ -20,24 +20,40 @@
 (***************************************************************************)
 EXTENDS DisruptionGuards, Json
 
-CONSTANTS MaxNow, MaxLen, Dedupe, WeakC
+CONSTANTS MaxNow, MaxLen, MaxEdits, Dedupe, VD, WeakC
 
-VARIABLES ca, static, initAt, now, lpe, cond, wAt, wLpe, h, wk
-vars == <<ca, static, initAt, now, lpe, cond, wAt, wLpe, h, wk>>
-view == <<ca, static, initAt, now, lpe, cond, wAt, wLpe, wk>>
-AllWeakC == {"offByOne", "ignorePodEvent", "static"}
+\* ca: the pool's CURRENT consolidateAfter (-1 = Never), edited by the operator at any time; wAt / wLpe / wCa: instant,
+\* pod-event stamp and consolidateAfter at the last write that turned the condition True; fresh: the nodeclaim disruption
+\* controller has reconciled since the last relevant change (pod event stamped, pool edited) - before that the condition
+\* may lag behind, which the statement does not exclude; decs: decisions of a consolidation method on this node
+VARIABLES ca, static, initAt, now, lpe, cond, wAt, wLpe, wCa, fresh, edits, decs, h, wk
+vars == <<ca, static, initAt, now, lpe, cond, wAt, wLpe, wCa, fresh, edits, decs, h, wk>>
+view == <<ca, static, initAt, now, lpe, cond, wAt, wLpe, wCa, fresh, edits, decs, wk>>
+AllWeakC == {"offByOne", "ignorePodEvent", "static", "stickyTrue"}
+\* consolidateAfter values: Never, 0, and two that exceed the validation delay (a command is judged when it is issued,
+\* VD seconds after the candidates were computed - a shorter window would always have elapsed by then)
+CAs == {-1, 0, 20, 40}
 
 Init == /\ wk \in (IF WeakC = "*" THEN AllWeakC ELSE {WeakC})
-        /\ ca \in {-1, 0, 2} /\ static \in BOOLEAN /\ initAt \in {-1, 0}
-        /\ now = 0 /\ lpe = -1 /\ cond = "Absent" /\ wAt = -1 /\ wLpe = -1 /\ h = <<>>
+        /\ ca \in {-1, 0, 20} /\ static \in BOOLEAN /\ initAt \in {-1, 0}
+        /\ now = 0 /\ lpe = -1 /\ cond = "Absent" /\ wAt = -1 /\ wLpe = -1 /\ wCa = -1 /\ fresh = FALSE /\ edits = 0
+        /\ decs = {} /\ h = <<[a |-> "Init", d |-> ca]>>     \* the history starts with the initial consolidateAfter
 
 Tick(d) == /\ now + d <= MaxNow /\ now' = now + d /\ h' = Append(h, [a |-> "Tick", d |-> d])
-           /\ UNCHANGED <<ca, static, initAt, lpe, cond, wAt, wLpe, wk>>
+           /\ UNCHANGED <<ca, static, initAt, lpe, cond, wAt, wLpe, wCa, fresh, edits, decs, wk>>
 
+\* the podevents controller stamps lastPodEventTime = now unless the previous stamp is younger than Dedupe seconds
 PodEvent == /\ initAt >= 0     \* pods bind to initialized nodes
-            /\ lpe' = IF lpe < 0 \/ now - lpe >= Dedupe THEN now ELSE lpe
+            /\ LET stamp == lpe < 0 \/ now - lpe >= Dedupe IN
+               /\ lpe' = IF stamp THEN now ELSE lpe
+               /\ fresh' = IF stamp THEN FALSE ELSE fresh
             /\ h' = Append(h, [a |-> "PodEvent", d |-> 0])
-            /\ UNCHANGED <<ca, static, initAt, now, cond, wAt, wLpe, wk>>
+            /\ UNCHANGED <<ca, static, initAt, now, cond, wAt, wLpe, wCa, edits, decs, wk>>
+
+\* the operator edits the pool's consolidateAfter (raise, lower, Never, back)
+EditCA(c) == /\ c # ca /\ edits < MaxEdits /\ ca' = c /\ edits' = edits + 1 /\ fresh' = FALSE
+             /\ h' = Append(h, [a |-> "EditCA", d |-> c])
+             /\ UNCHANGED <<static, initAt, now, lpe, cond, wAt, wLpe, wCa, decs, wk>>
 
 Rule == IF wk = "offByOne"
           THEN ~static /\ ca >= 0 /\ initAt >= 0 /\ now - ConsolidatableRef(lpe, initAt) >= ca - 1
@@ -46,28 +62,52 @@ Rule == IF wk = "offByOne"
         ELSE IF wk = "static"
           THEN ca >= 0 /\ initAt >= 0 /\ now - ConsolidatableRef(lpe, initAt) >= ca
         ELSE G_C07_Consolidatable(now, lpe, initAt >= 0, initAt, TRUE, static, ca)
+\* spec mutation "stickyTrue": an already-True condition is kept unless a pod event is stamped strictly after its
+\* transition instant (so a raised consolidateAfter, or a pod event in the very second of the transition, goes unnoticed)
+Keep == wk = "stickyTrue" /\ cond = "True" /\ ~static /\ ca >= 0 /\ initAt >= 0 /\ ~(lpe > wAt)
+NewCond == IF Keep THEN cond ELSE IF Rule THEN "True" ELSE "Absent"
 
-Reconcile == /\ cond' = IF Rule THEN "True" ELSE "Absent"
-             /\ wAt' = IF Rule /\ cond # "True" THEN now ELSE wAt
-             /\ wLpe' = IF Rule /\ cond # "True" THEN lpe ELSE wLpe
+Reconcile == /\ cond' = NewCond
+             /\ wAt' = IF NewCond = "True" /\ cond # "True" THEN now ELSE wAt
+             /\ wLpe' = IF NewCond = "True" /\ cond # "True" THEN lpe ELSE wLpe
+             /\ wCa' = IF NewCond = "True" /\ cond # "True" THEN ca ELSE wCa
+             /\ fresh' = TRUE
              /\ h' = Append(h, [a |-> "Reconcile", d |-> 0])
-             /\ UNCHANGED <<ca, static, initAt, now, lpe, wk>>
+             /\ UNCHANGED <<ca, static, initAt, now, lpe, edits, decs, wk>>
+
+\* a consolidation method (emptiness / single / multi) looks at the node: it trusts the condition.  A candidate's command
+\* is validated and issued VD seconds later (nothing else happens meanwhile here); it is judged at that instant
+Decide == LET candidate == cond = "True" /\ ~static /\ ca >= 0
+              t == now + VD IN
+          /\ decs' = IF candidate
+                     THEN decs \cup {[fresh |-> fresh,
+                                      just |-> G_C07_Consolidatable(t, lpe, initAt >= 0, initAt, TRUE, static, ca)]}
+                     ELSE decs
+          /\ now' = IF candidate THEN t ELSE now
+          /\ h' = Append(h, [a |-> "Decide", d |-> 0])
+          /\ UNCHANGED <<ca, static, initAt, lpe, cond, wAt, wLpe, wCa, fresh, edits, wk>>
 
 Bounded == Len(h) < MaxLen
 TickOne == Bounded /\ Tick(1)
 TickFar == Bounded /\ Tick(Dedupe - 1)
+TickWindow == Bounded /\ Tick(20)
 PodEventB == Bounded /\ PodEvent
 ReconcileB == Bounded /\ Reconcile
-Next == TickOne \/ TickFar \/ PodEventB \/ ReconcileB
+EditB == Bounded /\ \E c \in CAs : EditCA(c)
+DecideB == Bounded /\ Decide
+Next == TickOne \/ TickFar \/ TickWindow \/ PodEventB \/ ReconcileB \/ EditB \/ DecideB
 Spec == Init /\ [][Next]_vars
 
-\* the statement at the write: consolidateAfter had elapsed since the last pod event known at that instant
+\* the statement at the write: consolidateAfter (as it was then) had elapsed since the last pod event known at that instant
 Inv_C07_ConsolidatableJustified ==
-    cond = "True" => /\ ca >= 0 /\ ~static /\ initAt >= 0
-                     /\ wAt - (IF wLpe >= 0 THEN wLpe ELSE initAt) >= ca
-TypeOK == cond \in {"Absent", "True"} /\ now \in 0..MaxNow
-WeakDetect == Inv_C07_ConsolidatableJustified \/ PrintT(<<"REJ", wk>>)
+    cond = "True" => /\ wCa >= 0 /\ ~static /\ initAt >= 0
+                     /\ wAt - (IF wLpe >= 0 THEN wLpe ELSE initAt) >= wCa
+\* ... and at the decision: once the controller has reconciled after the last pod event / pool edit, a node a consolidation
+\* method selects has really seen the pool's CURRENT consolidateAfter elapse since its last pod event
+Inv_C07_DecisionJustified == \A d \in decs : d.fresh => d.just
+TypeOK == cond \in {"Absent", "True"} /\ now >= 0
+WeakDetect == (Inv_C07_ConsolidatableJustified /\ Inv_C07_DecisionJustified) \/ PrintT(<<"REJ", wk>>)
 
 GenPrint == (Len(h) < MaxLen /\ ENABLED Next)
-            \/ PrintT(<<"BEH", ToJson([ca |-> ca, static |-> static, inited |-> initAt >= 0, steps |-> h])>>)
+            \/ PrintT(<<"BEH", ToJson([ca |-> h[1].d, static |-> static, inited |-> initAt >= 0, steps |-> h])>>)
 =============================================================================
